@@ -75,12 +75,12 @@ def bases():
     cubic = np.eye(3) * 6.0
     tric = alphabets.pmg_default(5, 6, 7, 70, 80, 100)
     out.append(('pos-wrapped-cubic', dict(coords=np.mod(un, 1), M=cubic, mode='pos')))
-    out.append(('disp-mode-triclinic', dict(coords=np.concatenate([np.zeros((1, 3, 3)), rng_steps]), M=tric, mode='disp', base=x0)))
+    out.append(('disp-mode-triclinic', dict(coords=np.concatenate([np.zeros((1, 3, 3)), rng_steps]), M=tric, mode='disp', base=x0, species_cls='SpeciesOx')))
     out.append(('pos-raw-unwrapped-cubic', dict(coords=un + np.array([1.0, -2.0, 0.0]), M=cubic, mode='pos')))
     face = np.mod(un, 1)
     face[:, 0, 0] = [-1e-17, 1 - 1e-16, 0.0, 1.6]
     face[:, 1, 1] = [1.0, 1e-17, 0.25, 0.2]
-    out.append(('pos-face-values-triclinic', dict(coords=face, M=tric, mode='pos')))
+    out.append(('pos-face-values-triclinic', dict(coords=face, M=tric, mode='pos', species_cls='Element')))
     return out
 
 
@@ -94,7 +94,12 @@ def make_base(spec):
 
     from gemdat.trajectory import Trajectory
 
-    kw = dict(species=[Species(s) for s in SYMS], lattice=Lattice(spec['M']), time_step=DT, metadata=dict(META), constant_lattice=True)
+    from pymatgen.core import Element
+
+    # the atoms may be plain species, elements, or species carrying an oxidation state (Li+, S2-): selection is by symbol
+    cls = spec.get('species_cls', 'Species')
+    species = [Species(s) for s in SYMS] if cls == 'Species' else ([Element(s) for s in SYMS] if cls == 'Element' else [Species(s, {'Li': 1, 'S': -2}[s]) for s in SYMS])
+    kw = dict(species=species, lattice=Lattice(spec['M']), time_step=DT, metadata=dict(META), constant_lattice=True)
     if spec['mode'] == 'disp':
         t = Trajectory(coords=np.array(spec['coords'], dtype=float), coords_are_displacement=True, base_positions=np.array(spec['base'], dtype=float), **kw)
         pos = spec['base'][None] + np.cumsum(spec['coords'], axis=0)
@@ -217,6 +222,22 @@ def apply_event(world, refs, ev):
             nr = Ref(r.pos[start:start + len(p)], r.syms, r.M, r.dt, r.meta, r.nest + 1)
         if unequal:
             nr.bad = f'split(equal_parts=True) returned parts of lengths {[len(x) for x in parts]}'
+    elif kind == 'extend-foreign':
+        # a trajectory recorded with ANOTHER time step (1 fs vs 2 fs) cannot be appended: refusing is fine (no-op); joining
+        # it silently, or editing it, is not
+        from pymatgen.core import Lattice
+
+        other = type(t)(species=list(t.species), coords=np.mod(np.array(t.positions)[:2] + 0.01, 1.0), lattice=Lattice(r.M), time_step=1e-15, metadata=dict(META), constant_lattice=True)
+        n0 = len(t)
+        try:
+            t.extend(other)
+        except ValueError:
+            pass
+        if len(t) != n0:
+            r.bad = ('extend-joins-a-trajectory-with-another-time-step', f'{n0} -> {len(t)} frames, time step of the result {t.time_step!r}, of the appended run 1e-15')
+        elif other.time_step != 1e-15:
+            r.bad = ('extend-edits-the-trajectory-it-is-given', f'time step of the argument now {other.time_step!r}')
+        return
     elif kind == 'extend':
         t.extend(world[arg])
         refs[i] = Ref(np.concatenate([r.pos, refs[arg].pos], axis=0), r.syms, r.M, r.dt, r.meta, r.nest)
@@ -329,6 +350,9 @@ def make_enabled(tier):
                         continue
                     evs.append((kind, i, arg))
         for i in range(len(w.objs)):
+            if len(w.refs[i].pos) >= 2 and len(hist) <= 1:
+                evs.append(('extend-foreign', i, None))
+        for i in range(len(w.objs)):
             for j in range(len(w.objs)):
                 if i != j and w.refs[i].syms == w.refs[j].syms and len(w.refs[i].pos) + len(w.refs[j].pos) <= 8:
                     evs.append(('extend', i, j))
@@ -348,8 +372,11 @@ def observe(build, hist):
         return [(f'operation-raises-{ev[0]}', f'{ev}: {msg}')]
     n = len(w.objs)
     for i in range(n):
-        if getattr(w.refs[i], 'bad', None):
-            viols.append(('split-part-not-contiguous-or-not-equal', w.refs[i].bad))
+        bad = getattr(w.refs[i], 'bad', None)
+        if isinstance(bad, tuple):
+            viols.append(bad)
+        elif bad:
+            viols.append(('split-part-not-contiguous-or-not-equal', bad))
     for q in OBSERVATIONS:
         w = build(hist)  # fresh replica per observation: observing must not disturb what is observed
         for i in range(n):
